@@ -85,3 +85,64 @@ Theorem C11_with_paths_includes_literals : forall t, tree_in_c11e t = true ->
 Proof. exact C11P_includes_c11e. Qed.
 Print Assumptions C11_roundtrip_with_paths. Print Assumptions C11_with_paths_is_what_the_api_builds.
 Print Assumptions C11_with_paths_includes_literals.
+
+(* ---- data paths NESTED one level inside the argument of a one-parameter callable ----
+   (NestedIO.v: the parser of Spec.v instantiated with an injective marker for a nested path, so that the list / mapping literal it
+   builds can be decoded back into NestedArgs.narg; the serialiser mirrors _arg_to_json_like.)  For Value.in_([DataPath(..), 1, {..}]),
+   Value.equal_to({"k": DataPath(..).length(), "j": [1]}) and the like: the written JSON is pure, from_spec rebuilds the condition,
+   the rebuilt condition is == to the original and is written to the same JSON again.  Fragment: list displays (a tuple is written
+   as a list and does NOT come back equal: C11_nested_tuple_not_equal), mapping displays whose keys do not contain "path" (with such
+   a key the serialiser refuses: C11_nested_path_key_refused), literal items of the C11 item fragment, paths of the C12 fragment. *)
+From Valida Require Import NestedArgs NestedIO.
+From Valida.Proofs Require Import C11NestedProof.
+
+Theorem C11_nested_leaf_roundtrip : forall nas c q,
+  leaf_in_c11n nas c q ->
+  let l := nleaf nas c q in
+  let l' := nleaf (backs_n nas) c q in
+  let j := leaf_js_n nas c q in
+  leafn_to_json l = Ok j /\ json_pure j = true /\
+  (exists tm, condn_from_spec j = Ok (tm, CLeaf l')) /\
+  leafn_eqb l' l = true /\ leafn_to_json l' = Ok j.
+Proof. exact C11N_leaf_roundtrip. Qed.
+
+Theorem C11_nested_list_roundtrip : forall c q items,
+  class_ok c q = true -> casts c q = false -> q_form q = FOne (VObj 0%N) ->
+  Forall item_ok1 items ->
+  let l := nleaf [NItems false items] c q in
+  let l' := nleaf [back_n (NItems false items)] c q in
+  let j := VDict [(VStr (leaf_key c q), VList (map wj1 items))] in
+  leafn_to_json l = Ok j /\ json_pure j = true /\
+  (exists tm, condn_from_spec j = Ok (tm, CLeaf l')) /\
+  leafn_eqb l' l = true /\ leafn_to_json l' = Ok j.
+Proof. exact C11N_list_roundtrip. Qed.
+
+Theorem C11_nested_mapping_roundtrip : forall c q kvs,
+  class_ok c q = true -> casts c q = false -> q_form q = FOne (VObj 0%N) ->
+  dkeys_ok kvs = true -> Forall item_ok1 (map snd kvs) ->
+  let l := nleaf [NDict kvs] c q in
+  let l' := nleaf [back_n (NDict kvs)] c q in
+  let j := VDict [(VStr (leaf_key c q), VDict (vmap wj1 kvs))] in
+  leafn_to_json l = Ok j /\ json_pure j = true /\
+  (exists tm, condn_from_spec j = Ok (tm, CLeaf l')) /\
+  leafn_eqb l' l = true /\ leafn_to_json l' = Ok j.
+Proof. exact C11N_dict_roundtrip. Qed.
+
+Theorem C11_nested_path_key_refused : forall c q kvs k tag t,
+  q_form q = FOne (VObj 0%N) ->
+  has_path_key (map (fun kv : pyval * arg1 => (fst kv, VNone)) kvs) = true -> In (k, APath tag t) kvs ->
+  leafn_to_json (nleaf [NDict kvs] c q) = Err TypeError.
+Proof. exact C11N_dict_path_key_refused. Qed.
+
+(* and/or/xor trees of such leaves (null operands, depth <= 40, no Key / Index mix); partial: leaves of the other fragments
+   (plain literals, several parameters) are not yet proved inside the same narg tree *)
+Theorem C11_nested_tree_roundtrip_partial : forall nas t,
+  tree_in_c11n nas t ->
+  exists j tm c2,
+    condn_to_json (cmapN nas (cond_of (qnorm t))) = Ok j /\ json_pure j = true /\
+    condn_from_spec j = Ok (tm, c2) /\ condn_eqb c2 (cmapN nas (cond_of (qnorm t))) = true /\
+    condn_to_json c2 = Ok j.
+Proof. exact C11N_roundtrip_partial. Qed.
+
+Print Assumptions C11_nested_leaf_roundtrip. Print Assumptions C11_nested_list_roundtrip. Print Assumptions C11_nested_mapping_roundtrip.
+Print Assumptions C11_nested_path_key_refused. Print Assumptions C11_nested_tree_roundtrip_partial.
